@@ -149,6 +149,16 @@ func (v *JV) coq() string {
 	case 's':
 		return "(DStr " + bd(v.S) + ")"
 	case 'o':
+		if len(v.A) == 1 {
+			n, cur := 0, v
+			for cur.K == 'o' && len(cur.A) == 1 && cur.Keys[0] == v.Keys[0] {
+				n++
+				cur = cur.A[0]
+			}
+			if n >= 8 {
+				return fmt.Sprintf("(DNestO %d %s %s)", n, bd(v.Keys[0]), cur.coq())
+			}
+		}
 		parts := make([]string, len(v.A))
 		for i, m := range v.A {
 			parts[i] = "(" + bd(v.Keys[i]) + ", " + m.coq() + ")"
